@@ -60,6 +60,19 @@ func NewKeysShaped(seed uint64, n int, shape int) *Keys {
 	return k
 }
 
+// addMember gives a key to one more identity (synthetic committees of the block-proof scenario).
+func (k *Keys) addMember(seed uint64, id primitives.MemberId) int {
+	if i, ok := k.index[string(id)]; ok {
+		return i
+	}
+	i := len(k.ids)
+	k.ids = append(k.ids, id)
+	s := sha256.Sum256([]byte(fmt.Sprintf("secret|%d|%s", seed, string(id))))
+	k.secrets = append(k.secrets, s[:])
+	k.index[string(id)] = i
+	return i
+}
+
 func mac(secret []byte, dom string, height uint64, content []byte) []byte {
 	h := sha256.New()
 	h.Write(secret)
